@@ -543,3 +543,77 @@ impl PeerStatus {
         }
     }
 }
+
+/// Read-only dump of everything the storage keeps, for verification
+#[cfg(aquatic_verif)]
+pub mod verif {
+    use super::*;
+
+    #[derive(Clone, Debug, PartialEq, Eq, PartialOrd, Ord, Hash)]
+    pub struct PeerDump {
+        pub ip: IpAddr,
+        pub port: u16,
+        pub is_seeder: bool,
+        pub valid_until: u32,
+    }
+
+    #[derive(Clone, Debug, PartialEq, Eq, PartialOrd, Ord, Hash)]
+    pub struct TorrentDump {
+        pub info_hash: [u8; 20],
+        pub large: bool,
+        /// Cached seeder counter (large representation only)
+        pub cached_num_seeders: Option<usize>,
+        /// In storage order
+        pub peers: Vec<PeerDump>,
+    }
+
+    /// Torrents in storage order
+    #[derive(Clone, Debug, Default, PartialEq, Eq, Hash)]
+    pub struct Dump {
+        pub ipv4: Vec<TorrentDump>,
+        pub ipv6: Vec<TorrentDump>,
+    }
+
+    fn dump_map<I: Ip + Into<IpAddr>>(map: &TorrentMap<I>) -> Vec<TorrentDump> {
+        let peer_dump = |k: &ResponsePeer<I>, p: &Peer| PeerDump {
+            ip: k.ip_address.into(),
+            port: k.port,
+            is_seeder: p.is_seeder,
+            valid_until: p.valid_until.verif_get(),
+        };
+
+        map.torrents
+            .iter()
+            .map(|(info_hash, data)| {
+                let (large, cached_num_seeders, peers) = match data {
+                    TorrentData::Small(m) => (
+                        false,
+                        None,
+                        m.0.iter().map(|(k, p)| peer_dump(k, p)).collect(),
+                    ),
+                    TorrentData::Large(m) => (
+                        true,
+                        Some(m.num_seeders),
+                        m.peers.iter().map(|(k, p)| peer_dump(k, p)).collect(),
+                    ),
+                };
+
+                TorrentDump {
+                    info_hash: info_hash.0,
+                    large,
+                    cached_num_seeders,
+                    peers,
+                }
+            })
+            .collect()
+    }
+
+    impl TorrentMaps {
+        pub fn verif_dump(&self) -> Dump {
+            Dump {
+                ipv4: dump_map(&self.ipv4),
+                ipv6: dump_map(&self.ipv6),
+            }
+        }
+    }
+}
